@@ -185,8 +185,9 @@ func GenSpec(r *Rng, seedPool int, big bool) BlkSpec {
 		size = r.Range(0, 300)
 	}
 	if kind == "id" {
-		// identity CIDs: empty, short, and long enough to exceed a 40-byte index CID limit
-		size = Pick(r, []int{0, 3, 20, 60, 100})
+		// identity CIDs: empty, short, long enough to exceed a 40-byte index CID limit, and around the
+		// default index CID limit of 2048 bytes (the CID is 5 bytes longer than the inline data)
+		size = Pick(r, []int{0, 3, 20, 60, 100, 0, 3, 20, 60, 2041, 2043, 2044})
 	} else if kind != "idsha" && kind != "shasha" && r.Chance(1, 14) {
 		// a section (CID + data) whose length sits on a power of two +-1: the sizes of buffers and pages
 		cl := MakeBlock(BlkSpec{Kind: kind, Seed: 1, Size: 1}).Cid.ByteLen()
